@@ -47,6 +47,22 @@ CHECKS = {
         technique="printers (declarative) and byte-level parsers (code-shaped) in StackTraceSyntax.tla; TLC checks Parse(Print(t))=t and Print(Parse(Print(t)))=Print(t) over alphabets containing the parsers' delimiters; same values through constructors/Display/try_parse; generated traces (depth<=5, <=20 frames, lines up to 2^64-1) validated by TLC",
         text="All traces over messages such as ': ', 'Caused by: x', 'at a.b(c:1)', classes with $ and non-ASCII, '<init>', lines 0 and 2^64-1, files '' and 'x(y)', depth <=3 (quick) / <=5, top-level exception present or absent; round trip of whole traces, single frames and throwables on the spec and on the implementation.",
         design="4 C17", note="Domain: StackTraceSyntax!TraceOk (top level carries an exception or a frame; see DESIGN section 6 item 7)."),
+    "C09": dict(
+        technique="TLA+ decoder of the documented binary format (CacheFormat.tla: layout, WellFormed, Content) applied by TLC to the real bytes ProguardCache::write produced; decoded index compared with the declarative index of the mapping (CacheContent!SameIndex); layout arithmetic model-checked (MC_CacheParse)",
+        text="For generated mappings (0..45 classes, member-less classes, shared/non-ASCII/>127-byte strings, noise) and corpus files, TLC decodes the written bytes itself and checks magic/version/counts, strict class order, exact tiling of member and by-params ranges in class order, intra-class order, 8-byte alignment with zero padding, string readability/sentinels, exact length, equality of the decoded index with Index!Blocks, and that the library self-test returned.",
+        design="4 C09", note="Files are decoded whole by TLC (sizes up to a few 10 KB); sampled inputs. Trusted: TLC, Json module, harness byte recorder (canary-checked)."),
+    "C11": dict(
+        technique="acceptance rule ParseOutcome in TLA+ model-checked over all file shapes x every cut point x header edits (MC_CacheParse), crash-leaves-prefix invariant of the writer/sink protocol (MC_CacheIO), and real ProguardCache::parse outcomes on every prefix / header edit of real files validated by TLC",
+        text="Exhaustive for shapes up to 2x2x2 entries and 5 string bytes (quick) / 3x3x3x9: every strict prefix rejected, stated error kinds for flipped/foreign magic, version, over-declared sections and strings; on real files every prefix of the first three files, sampled prefixes of the rest and 40+ single-field header edits each must produce exactly the outcome (kind, expected, found) ParseOutcome predicts.",
+        design="4 C11", note="Since no strict prefix is accepted, the 'or answers like the full file' branch is vacuous and any acceptance is reported."),
+    "C14": dict(
+        technique="trace validation: the same mapping written twice in-process, by 4 threads and by >=8 (quick) / 32 separately started processes; TLC checks all copies byte-identical and length = header-implied length (CacheFormat!ImpliedLength)",
+        text="Different processes have different hash seeds and addresses; any dependence of the output on HashMap/HashSet iteration order or uninitialised padding shows up as differing copies.",
+        design="4 C14", note="Sampled mappings (generated + small corpus files). The writer model with nondeterministic container order is future work listed in DESIGN."),
+    "C15": dict(
+        technique="writer/sink protocol as a TLA+ state machine (CacheIO.tla) model-checked for every sink response at every call; the pinned single-write padding variant must be refuted; TLC-generated sink schedules (cap k=1..16, short/zero/fail/interrupt at call i) replayed through ProguardCache::write with a scripted sink; recorded runs with every sink call validated by TLC (RecordedProtocol)",
+        text="Success implies the sink holds exactly the canonical bytes; a reported failure implies an error result and a prefix; every offered buffer is the next bytes of the canonical file.",
+        design="4 C15", note="Canonical = what the same build writes into a Vec. Bounded exhaustive on the model, 88 policy schedules on a real one-class file, seeded policies on generated mappings."),
 }
 
 NOT_YET = {}
